@@ -72,7 +72,7 @@ ARITH = ('add', 'sub', 'mul', 'div', 'mod', 'and', 'or', 'xor', 'asl', 'asr')
 
 class VM:
     def __init__(self, prog, max_steps=20000, timeout_ms=20000, addr_cap=16, monitor=None,
-                 sym_prefix='', stack_garbage=False, total_steps=None, deadline=None, max_paths=3000, concretize_dests=()):
+                 sym_prefix='', stack_garbage=False, total_steps=None, deadline=None, max_paths=3000, concretize_dests=(), stop_pcs=()):
         self.P = prog
         self.T = Terms(prog.word)
         self.W = prog.word
@@ -83,6 +83,7 @@ class VM:
         self.deadline = deadline
         self.max_paths = max_paths
         self.concretize_dests = set(concretize_dests)
+        self.stop_pcs = set(stop_pcs)      # fragment execution: reaching one of these (after the first step) ends the path
         self.addr_cap = addr_cap
         self.mon = monitor
         self.sym_prefix = sym_prefix
@@ -373,6 +374,9 @@ class VM:
                 return
             if self.deadline is not None and (self.nsteps & 1023) == 0 and time.time() > self.deadline:
                 res.append(Path('bound', conds, st.ev, 'deadline', st.m))
+                return
+            if self.stop_pcs and st.steps > 0 and st.pc in self.stop_pcs:
+                res.append(Path('stop', conds, st.ev, (st.pc, st.mem, len(st.choices)), st.m))
                 return
             st.steps += 1
             self.nsteps += 1
